@@ -223,10 +223,11 @@ class PVTRReader(_PVTKReader):
     ) -> RectilinearMesh:
         extents = decomposition.merged_extents()
         ordinates = [zeros(shape=(extents[i] + 1,)) for i in range(_VTK_SPACE_DIM)]
-        for direction in decomposition.meshed_dimensions():
+        for meshed_idx, direction in enumerate(decomposition.meshed_dimensions()):
             index_offset = 0
             for i in range(len(decomposition.decomposition_along(direction))):
-                domain_location = tuple(i if k == direction else 0 for k in range(decomposition.dimension()))
+                # piece locations are indexed by the position among the meshed directions
+                domain_location = tuple(i if k == meshed_idx else 0 for k in range(decomposition.dimension()))
                 domain_id = decomposition.domain_id(domain_location)
                 piece_reader = piece_readers[domain_id]
                 assert isinstance(piece_reader, VTRReader)
